@@ -136,6 +136,8 @@ def run(ck):
             ck.violation("race.flush-vs-write-callback", {"property": "C10", "scenario": "thread 1: add A, flush (slow write callback); thread 2 meanwhile: add B, flush",
                          "A": hexs(a), "B": hexs(b), "wire_chunks": [hexs(c) for c in chunks], "reason": "concurrent flush corrupted the packet being written"})
     ck.oblige("concurrency probe: flush racing a slow write callback (%d runs)" % len(pm), race_bad == 0, "%d bad" % race_bad)
+    # two senders under forced schedules: each message intact and once on the wire (shared with C01)
+    C01.two_sender_probe(ck, Rng(ck.seed).fork("C10send"), "C10")
     # two readers competing for the last queued message: reader A is parked before its k-th mutex acquisition
     # inside the read function while reader B pops; each message must go to exactly one reader
     exe3 = vlib.build_harness(wrap=("pthread_mutex_lock",))
